@@ -29,6 +29,10 @@ class Facts:
             if not b.get("_loops_normalised"):
                 b["_impl_assigned_fields"] = sorted(impl_assigned.get(b.get("impl_self") or "", ()))
                 try:
+                    split_destructuring(b)
+                except Exception:
+                    pass
+                try:
                     normalise_loops(b)
                 except Exception:
                     pass
@@ -414,6 +418,46 @@ def _not(c):
     if c.get("k") == "Un" and c.get("op") == "Not":
         return c["e"]
     return {"k": "Un", "op": "Not", "e": c, "ty": "bool", "sp": c.get("sp")}
+
+
+def split_destructuring(body):
+    """`let (a, b) = (x, y);` becomes `let a = x; let b = y;` and `let Self { f, g: h, .. } = self;` (any struct pattern of plain bindings on a place)
+    becomes `let f = self.f; let h = self.g;`.  Bindings introduce fresh locals, so the right-hand sides cannot see them: order is immaterial for the
+    tuple form when the components are pure or there is only one impure component."""
+    root = body.get("body")
+    if not isinstance(root, dict):
+        return
+
+    def plain(p_):
+        return p_.get("k") == "Bind" and "sub" not in p_ or p_.get("k") == "Wild"
+    for blk in walk(root):
+        if blk.get("k") != "Block" or not blk.get("stmts"):
+            continue
+        out = []
+        for st in blk["stmts"]:
+            if st.get("k") == "LetS" and "init" in st and "els" not in st:
+                pat, init = st["pat"], st["init"]
+                names_ = [q.get("name") for q in pat.get("ps", []) if q.get("k") == "Bind"]
+                if pat.get("k") == "PTuple" and len(set(names_)) != len(names_):
+                    out.append(st)          # `(a, b) = (b, a)` desugars to `let (lhs, lhs) = (b, a); a = lhs; b = lhs`: the binders share a name; rules that follow names must not see them apart
+                    continue
+                if pat.get("k") == "PTuple" and init.get("k") == "Tup" and len(pat["ps"]) == len(init.get("es", [])) >= 2 and all(plain(q) for q in pat["ps"]) \
+                        and sum(0 if _pure_expr(e) else 1 for e in init["es"]) <= 1 and all(q.get("k") == "Bind" or _pure_expr(e) for q, e in zip(pat["ps"], init["es"])):
+                    for q, e in zip(pat["ps"], init["es"]):
+                        if q.get("k") == "Bind":
+                            out.append({"k": "LetS", "pat": q, "init": e, "sp": st.get("sp")})
+                    continue
+                pl = init
+                while isinstance(pl, dict) and pl.get("k") in ("Paren", "DropTemps"):
+                    pl = pl.get("e")
+                if pat.get("k") == "PStruct" and isinstance(pl, dict) and pl.get("k") in ("Local", "Field") and place(pl) is not None and pat.get("fields") \
+                        and all(plain(f["pat"]) for f in pat["fields"]):
+                    for f in pat["fields"]:
+                        if f["pat"].get("k") == "Bind":
+                            out.append({"k": "LetS", "pat": f["pat"], "init": {"k": "Field", "e": _deep(pl), "name": f["name"], "ty": f["pat"].get("ty"), "sp": st.get("sp")}, "sp": st.get("sp")})
+                    continue
+            out.append(st)
+        blk["stmts"] = out
 
 
 def normalise_loops(body):
@@ -875,7 +919,7 @@ def inline_new_helpers(F):
         if visit(b["body"], 0):
             hoist(b["body"])
             b["_inlined_helpers"] = True
-            for fn_ in (normalise_loops, normalise_find_map, normalise_matches, simplify_lets):
+            for fn_ in (split_destructuring, normalise_loops, normalise_find_map, normalise_matches, simplify_lets):
                 try:
                     fn_(b)
                 except Exception:
@@ -953,6 +997,28 @@ def _deep(e):
     if isinstance(e, list):
         return [_deep(x) for x in e]
     return e
+
+
+def build_tree(arms, rows, e, n, blockify):
+    used = set()
+
+    def build(assign):
+        for a, row in zip(arms, rows):
+            if all(want is None or assign.get(j, want) == want for j, want in enumerate(row)):
+                need = [j for j, want in enumerate(row) if want is not None and j not in assign]
+                if not need:
+                    bd = a["body"] if id(a) not in used else _deep(a["body"])
+                    used.add(id(a))
+                    return blockify(bd)
+                j = need[0]
+                at, ae = dict(assign), dict(assign)
+                at[j], ae[j] = True, False
+                t_, e_ = build(at), build(ae)
+                if t_ is None or e_ is None:
+                    return None
+                return {"k": "If", "c": _deep(e["es"][j]), "t": t_, "e": e_, "ty": n.get("ty"), "sp": n.get("sp")}
+        return None
+    return build({})
 
 
 def normalise_matches(body):
@@ -1064,6 +1130,121 @@ def normalise_matches(body):
         me = {"k": "MCall", "name": "map_err", "recv": n["e"], "args": [closure], "def": "std::result::Result::<T, E>::map_err", "ty": n["e"].get("ty"), "sp": n.get("sp")}
         return {"k": "Try", "e": me, "ty": n.get("ty"), "sp": n.get("sp")}
 
+    def rewrite_cmp_match(n):
+        """`match a.partial_cmp(&b) { Some(Less | Equal) => X, _ => Y }` (and `a.cmp(&b)` with bare orderings) is `if a <= b { X } else { Y }`: each arm's set of
+        outcomes {Less, Equal, Greater, None}, minus what earlier arms took, must be one comparison; the last arm takes what is left.  a and b pure, no guards."""
+        e = n.get("e")
+        while isinstance(e, dict) and e.get("k") in ("Paren", "DropTemps"):
+            e = e.get("e")
+        if not (isinstance(e, dict) and e.get("k") == "MCall" and e["name"] in ("partial_cmp", "cmp") and len(e.get("args", [])) == 1):
+            return None
+        partial = e["name"] == "partial_cmp"
+        a_, b_ = e["recv"], e["args"][0]
+        while isinstance(a_, dict) and a_.get("k") == "Ref":
+            a_ = a_["e"]
+        while isinstance(b_, dict) and b_.get("k") == "Ref":
+            b_ = b_["e"]
+        if not (_pure_expr(a_) and _pure_expr(b_)):
+            return None
+        arms = n.get("arms") or []
+        if len(arms) < 2 or any(a.get("guard") is not None for a in arms):
+            return None
+        full = {"L", "E", "G"} | ({"N"} if partial else set())
+
+        def inner(p_):
+            k = p_.get("k")
+            if k == "Wild":
+                return {"L", "E", "G"}
+            if k == "PPath":
+                return {"Less": {"L"}, "Equal": {"E"}, "Greater": {"G"}}.get((p_.get("def") or "").split("::")[-1])
+            if k == "POr":
+                out = set()
+                for q in p_["ps"]:
+                    r_ = inner(q)
+                    if r_ is None:
+                        return None
+                    out |= r_
+                return out
+            return None
+
+        def outer(p_):
+            k = p_.get("k")
+            if k == "Wild":
+                return set(full)
+            if not partial:
+                return inner(p_)
+            if k == "PPath" and (p_.get("def") or "").split("::")[-1] == "None":
+                return {"N"}
+            if k == "PTupleStruct" and (p_.get("def") or "").split("::")[-1] == "Some" and len(p_.get("ps", [])) == 1:
+                return inner(p_["ps"][0])
+            if k == "POr":
+                out = set()
+                for q in p_["ps"]:
+                    r_ = outer(q)
+                    if r_ is None:
+                        return None
+                    out |= r_
+                return out
+            return None
+        ops = {frozenset("L"): "Lt", frozenset("E"): "Eq", frozenset("G"): "Gt", frozenset("LE"): "Le", frozenset("GE"): "Ge"}
+        taken, conds = set(), []
+        for i, a in enumerate(arms):
+            st_ = outer(a["pat"])
+            if st_ is None:
+                return None
+            eff = st_ - taken
+            taken |= st_
+            if i == len(arms) - 1:
+                if taken != full:
+                    return None
+                conds.append(None)
+            else:
+                if frozenset(eff) not in ops:
+                    return None
+                conds.append(ops[frozenset(eff)])
+        def bool_lit(x):
+            while isinstance(x, dict) and x.get("k") == "Block" and not x.get("stmts") and x.get("expr") is not None:
+                x = x["expr"]
+            return x.get("v") if isinstance(x, dict) and x.get("k") == "Lit" and x.get("lit") == "bool" else None
+        if len(arms) == 2 and {bool_lit(arms[0]["body"]), bool_lit(arms[1]["body"])} == {"true", "false"}:
+            # `matches!(a.partial_cmp(&b), Some(Less | Equal))`: the comparison itself (negated when the arms are the other way round)
+            c = {"k": "Bin", "op": conds[0], "l": _deep(a_), "r": _deep(b_), "ty": "bool", "sp": e.get("sp")}
+            return c if bool_lit(arms[0]["body"]) == "true" else {"k": "Un", "op": "Not", "e": c, "ty": "bool", "sp": e.get("sp")}
+        chain = blockify(arms[-1]["body"])
+        for a, op in reversed(list(zip(arms[:-1], conds[:-1]))):
+            c = {"k": "Bin", "op": op, "l": _deep(a_), "r": _deep(b_), "ty": "bool", "sp": e.get("sp")}
+            chain = {"k": "If", "c": c, "t": blockify(a["body"]), "e": chain, "ty": n.get("ty"), "sp": n.get("sp")}
+        return chain
+
+    def rewrite_bool_tuple_match(n):
+        """`match (p, q) { (true, _) => A, (false, true) => B, (false, false) => C }` over pure boolean components becomes the if chain
+        `if p { A } else if !p && q { B } else { C }` (rustc has checked that the arms are exhaustive, so the last arm is the else)."""
+        e = n.get("e")
+        if not (isinstance(e, dict) and e.get("k") == "Tup" and len(e.get("es", [])) >= 2 and all(x.get("ty") == "bool" and _pure_expr(x) for x in e["es"])):
+            return None
+        arms = n.get("arms") or []
+        if len(arms) < 2 or any(a.get("guard") is not None for a in arms):
+            return None
+        rows = []
+        for a in arms:
+            p_ = a["pat"]
+            if p_.get("k") == "Wild":
+                rows.append([None] * len(e["es"]))
+                continue
+            if p_.get("k") != "PTuple" or len(p_["ps"]) != len(e["es"]):
+                return None
+            row = []
+            for q in p_["ps"]:
+                if q.get("k") == "Wild":
+                    row.append(None)
+                elif q.get("k") == "PLit" and q.get("lit") == "bool":
+                    row.append(q.get("v") == "true")
+                else:
+                    return None
+            rows.append(row)
+        # decision tree on the components, in the order the first still-possible arm needs them: `if p { A } else if q { B } else { C }`
+        return build_tree(arms, rows, e, n, blockify)
+
     def rewrite_then(n):
         # recv.ok_or(E) / recv.ok_or_else(|| E) with recv = cond.then(|| V) / cond.then_some(V)
         if n.get("k") != "MCall" or n["name"] not in ("ok_or", "ok_or_else") or len(n.get("args", [])) != 1:
@@ -1154,6 +1335,12 @@ def normalise_matches(body):
                 return r
         if n.get("k") == "Match":
             r = rewrite_try_match(n)
+            if r is not None:
+                return r
+            r = rewrite_cmp_match(n)
+            if r is not None:
+                return r
+            r = rewrite_bool_tuple_match(n)
             if r is not None:
                 return r
             r = rewrite_match(n)
@@ -1367,6 +1554,64 @@ def simplify_lets(body):
             if zone is None or not _pure_expr(zone):
                 continue
             if any(x is uses[lid][0][0] for x in walk(zone)):
+                subst[lid] = a["init"]
+                drop.append(a)
+    # (1b) an immutable `let flag: bool = <pure test>` that reads fields assigned elsewhere in the function, all of whose uses lie in the statements
+    #      that follow it in its own block, none of which (up to the last use) writes anything the test reads: the test has the same value at
+    #      each use, so it is written there (`let too_small = dt < dt_min; if !too_small { history.clear() } Err(if too_small { … } else { … })`)
+    def writes_of(st):
+        """(places, local ids, everything?) a statement may write"""
+        pls, ids, anything = set(), set(), False
+        for x in walk(st):
+            k = x.get("k")
+            if k in ("Assign", "AssignOp") or (k == "Ref" and x.get("mut")):
+                t = peel(x["l"] if k != "Ref" else x["e"])
+                if t.get("k") == "Index":
+                    t = peel(t["e"])
+                if t.get("k") == "Local":
+                    ids.add(t["id"])
+                elif t.get("k") == "Field" and place(t):
+                    pls.add(place(t))
+                else:
+                    anything = True
+            elif k == "MCall" and x["name"] not in _PURE_M:
+                r = peel(x["recv"])
+                if r.get("k") == "Field" and place(r):
+                    pls.add(place(r))
+                elif r.get("k") == "Local" and r.get("name") == "self":
+                    anything = True
+                elif r.get("k") == "Local":
+                    ids.add(r["id"])
+            elif k == "Call" and "ovl" in x:
+                anything = True            # a call through a closure-typed field / parameter: it may hold a mutable borrow of anything it captured
+        return pls, ids, anything
+    for blk in walk(root):
+        if blk.get("k") != "Block" or not blk.get("stmts"):
+            continue
+        seq = list(blk["stmts"]) + ([{"k": "ExprS", "e": blk["expr"], "_tail": True}] if blk.get("expr") is not None else [])
+        for i, a in enumerate(seq):
+            if a.get("k") != "LetS" or a["pat"].get("k") != "Bind" or "init" not in a or "Mut)" in a["pat"].get("mode", "") or "els" in a or a["pat"].get("ty") != "bool":
+                continue
+            lid = a["pat"]["id"]
+            us = uses.get(lid, [])
+            if lid in subst or lid in assigned_locals or not us or not _pure_expr(a["init"]):
+                continue
+            rd_pl = {place(x) for x in walk(a["init"]) if x.get("k") == "Field" and place(x)}
+            rd_id = {x["id"] for x in walk(a["init"]) if x.get("k") == "Local"}
+            left = len(us)
+            ok = True
+            for st in seq[i + 1:]:
+                inside = sum(1 for x in walk(st) if x.get("k") == "Local" and x.get("id") == lid)
+                if inside == 0 and left == 0:
+                    break
+                pls, ids, anything = writes_of(st)
+                if anything or ids & rd_id or any(p_ == r_ or p_.startswith(r_ + ".") or r_.startswith(p_ + ".") for p_ in pls for r_ in rd_pl):
+                    ok = False
+                    break
+                left -= inside
+                if left == 0:
+                    break
+            if ok and left == 0:
                 subst[lid] = a["init"]
                 drop.append(a)
     # (2c) `let v = if c { A } else { B };` (any content) used exactly once in the *very next* statement as the operand of `return` / of a result
